@@ -1,3 +1,4 @@
+import Photon.Model.IntrLog
 import Photon.Model.Sync
 /-!
 # C04 — Sleep, timeout and interrupt: exact wake-up contract of the scheduler
@@ -330,3 +331,51 @@ example : (run {} [.create 1, .create 2, .call 1 (.sleep (some 100)), .sleep 1 n
   decide
 
 end Photon.Sync
+
+/-! ### several vCPUs: the interrupt ledger of real concurrent runs (`Model/IntrLog.lean`, harness `mv_sync intrrace`) -/
+namespace Photon.IntrLog
+
+theorem step_ok (s s' : St) (e : Ev) (h : step s e = .ok s') : pre s e = none ∧ s' = eff s e := by
+  unfold step at h
+  cases hp : pre s e with
+  | some m => rw [hp] at h; exact absurd h (by simp)
+  | none => rw [hp] at h; exact ⟨rfl, by injection h with h; exact h.symm⟩
+
+theorem run_inv (evs : List Ev) : ∀ (s s' : St), s.delivered ≤ s.issued → run s evs = .ok s' → s'.delivered ≤ s'.issued := by
+  induction evs with
+  | nil => intro s s' hi h; simp only [run] at h; injection h with h; subst h; exact hi
+  | cons e es ih =>
+    intro s s' hi h
+    simp only [run] at h
+    cases hs : step s e with
+    | error m => rw [hs] at h; exact absurd h (by simp)
+    | ok s1 =>
+      rw [hs] at h
+      obtain ⟨hp, he⟩ := step_ok s s1 e hs
+      apply ih s1 s' _ h
+      rw [he]
+      cases e with
+      | issued => simp only [eff]; omega
+      | stale => exact hi
+      | wrongResult => exact hi
+      | delivered =>
+        simp only [pre] at hp
+        simp only [eff]
+        by_cases c : s.delivered + 1 ≤ s.issued
+        · exact c
+        · rw [if_neg c] at hp; exact absurd hp (by simp)
+
+/-- **C04 (several vCPUs), never invented.** In every accepted history of a concurrent run the interrupts reported by sleeps
+    never outnumber the interrupts issued before. -/
+theorem C04_mv_never_invented (evs : List Ev) (s : St) (h : run {} evs = .ok s) : s.delivered ≤ s.issued :=
+  run_inv evs {} s (Nat.le_refl _) h
+
+/-- **C04 (several vCPUs), never stale.** No accepted history contains a sleep that was cut short by an interrupt issued
+    for an earlier sleep of the thread, nor a sleep with any other result than 0 or the interrupter's errno. -/
+theorem C04_mv_never_stale (s s' : St) : step s .stale ≠ .ok s' ∧ step s .wrongResult ≠ .ok s' := by
+  constructor <;> (intro h; obtain ⟨hp, _⟩ := step_ok s s' _ h; simp [pre] at hp)
+
+example : (run {} [.issued, .delivered, .issued, .issued, .delivered]).isOk = true := by decide
+example : (run {} [.issued, .delivered, .delivered]).isOk = false := by decide
+
+end Photon.IntrLog
